@@ -5,21 +5,25 @@
 (* history is at the same time the script for the driver (API calls of the *)
 (* caller, the reply of every attempt by its raw kind, the passing of      *)
 (* time) and the prediction the driver compares the real run with (drift). *)
-(* A finished behaviour (every logical request closed) is printed once.    *)
+(* A finished behaviour (every logical request closed, or the client stuck  *)
+(* in the throttle for good) is printed once.                              *)
 (***************************************************************************)
 EXTENDS RegHttpMC, Json
 VARIABLE hist
 gvars == <<mvars, hist>>
 
 GInit == MCInit /\ hist = <<>>
-GNext == MCNext /\ hist' = hist \o obs'
-         \* nothing to script after the last close
-         /\ (\A i \in Ids : rs[i].st = "closed") => FALSE
+\* nothing is scripted after the last close
+GNext == /\ \E i \in Ids : rs[i].st # "closed"
+         /\ ~Blocked
+         /\ MCNext
+         /\ hist' = hist \o obs'
 GSpec == GInit /\ [][GNext]_gvars
 
 Finished == call = NoCall /\ \A i \in Ids : rs[i].st = "closed"
 ConfJson == [R |-> conf.R, dmax |-> conf.dmax, up |-> Up, hosts |-> HostSeq,
              prio |-> [i \in 1..Len(HostSeq) |-> conf.prio[HostSeq[i]]],
-             n |-> N, req |-> conf.req]
-Emit == Finished => PrintT(<<"SCN", ToJson([conf |-> ConfJson, steps |-> hist])>>)
+             n |-> N, conc |-> Conc, req |-> conf.req]
+Emit == (Finished \/ Blocked) =>
+          PrintT(<<"SCN", ToJson([conf |-> ConfJson, steps |-> hist, blocked |-> IF Blocked THEN 1 ELSE 0])>>)
 =============================================================================
